@@ -104,6 +104,7 @@ inline std::vector<GGroup> buildGroups(const Content& c, const Layout& l) {
         }
         if (c.extra == "dsother") { E.params.push_back(GParam::ints("DATA_START", {}, {9})); E.params.push_back(GParam::floats("SCALE", {}, {f2b(0.5f)})); }   // the very name, in ANOTHER group
         if (c.extra == "big") { std::vector<uint32_t> v; for (int i = 0; i < 100 * 90; ++i) v.push_back(f2b((float)i * 0.5f)); E.params.push_back(GParam::floats("TABLE", {100, 90}, v, false, D("a record above 32767 bytes"))); E.params.push_back(GParam::ints("AFTER", {}, {7})); }
+        if (c.extra == "bigint") { std::vector<int> v; for (int i = 0; i < 200 * 100; ++i) v.push_back((i * 7) % 65536 - 32768); E.params.push_back(GParam::ints("COUNTS", {200, 100}, v)); std::vector<int> b; for (int i = 0; i < 250 * 80; ++i) b.push_back(i % 256); E.params.push_back(GParam::bytes("BYTES", {250, 80}, b)); E.params.push_back(GParam::ints("AFTER", {}, {7})); }
         if (c.extra == "int0") { E.params.push_back(GParam::ints("ONE", {1}, {42})); E.params.push_back(GParam::floats("FONE", {1}, {f2b(4.25f)})); }
         G.push_back(E);
     }
@@ -180,14 +181,14 @@ inline std::vector<Dim> dims(bool thorough) {
     d.push_back({"events", {"0", "2", "18"}});
     d.push_back({"rates", {"100x2", "50x2", "29.97x2", "23.976x2", "0x1"}});
     d.push_back({"values", {"plain", "special"}});
-    d.push_back({"extra", {"small", "none", "bytes", "dim3", "str1d", "empty", "int0", "all", "char0d", "ctrlws", "dsprefix", "dsother", "big"}});
+    d.push_back({"extra", {"small", "none", "bytes", "dim3", "str1d", "empty", "int0", "all", "char0d", "ctrlws", "dsprefix", "dsother", "big", "bigint"}});
     d.push_back({"descs", {"short", "none", "lower", "d64", "d127", "d128", "d255"}});
     d.push_back({"names", {"std", "long"}});
     d.push_back({"hdrwords", {"std", "odd"}});
     d.push_back({"locks", {"no", "yes"}});
     d.push_back({"labels", {"equal", "fewer", "more", "blank"}});
     d.push_back({"alabels", {"equal", "fewer", "more"}});
-    d.push_back({"zeros", {"0", "1", "7", "512"}});
+    d.push_back({"zeros", {"0", "1", "7", "512", "511", "1023"}});   // 511 / 1023: the header key byte is the first byte of a 512-byte block of the FILE
     d.push_back({"prologue", {"0150", "0000"}});
     d.push_back({"pblock", {"2", "3"}});
     d.push_back({"order", {"default", "groupsFirst", "paramsFirst", "groupsReversed", "interleaved"}});
